@@ -19,6 +19,8 @@
     xhtml_roundtrip_markup_partial name_not_a_name_not_recovered rawtext_trailing_lt_recovered
     rawtext_endtag_not_recovered comment_dashes_not_recovered attr_ws_not_recovered_xhtml
     markup_text_not_recovered raw_table_matches_reader normEol_id doctype_table_is_w3c
+    doctype_literal_roundtrip xmldecl_literal_roundtrip html_roundtrip_doc_partial xhtml_roundtrip_doc_tokens_partial
+    xhtml_roundtrip_doc_partial
 -/
 import Genshi.Lemmas.ReaderXhtml
 import Genshi.Lemmas.ReaderTree
@@ -26,6 +28,7 @@ import Genshi.Lemmas.ReaderTreeNs
 import Genshi.Lemmas.ReaderXhtmlCdata
 import Genshi.Lemmas.ReaderPrologSim
 import Genshi.Lemmas.ReaderXmlView
+import Genshi.Lemmas.ReaderDocView
 import Genshi.Lemmas.OutputSafeText
 import Genshi.Lemmas.Output
 import Genshi.Lemmas.OutputFlatten
@@ -568,6 +571,152 @@ theorem xhtml_roundtrip_prolog_partial (o : Opts) (useCache : Bool) (evs : List 
     · exact loop_nocache_eq_spec .xhtml o evs {}
     · exact loop_cache_eq_spec .xhtml o evs {} (cacheOk_nil .xhtml o)
   rw [hl]; exact xhtml_tokensP o evs hok hend
+
+/-! ### whole documents: prolog, doctype option, body with PI and CDATA -/
+
+/-- The DOCTYPE literal the serializers write is parsed back (by the specification-side
+    `parseDoctype`, html.parser's and expat's reading of it) into exactly the fields of the event —
+    an empty identifier counts as absent (Python truthiness) — and is inside the tokenizer's
+    hypothesis `dtScan`, for all fields that can be told apart in a literal (`dtFieldsOk`: no blank,
+    `>` or quote in the name, no `"` in the public identifier, not both kinds of quote in the system
+    identifier). -/
+theorem doctype_literal_roundtrip (n : Str) (p s : Option Str) (h : dtFieldsOk n p s = true) :
+    parseDoctype (doctypeContent n p s) = some (n, normOpt p, normOpt s) ∧
+    dtScan none (doctypeContent n p s) = true :=
+  ⟨parseDoctype_doctypeContent n p s h, dtScan_doctypeContent n p s h⟩
+
+/-- The same for the XML declaration: version, encoding (empty = absent) and the standalone flag
+    (-1 absent, 0 no, anything else yes) are recovered from the literal, for every version and
+    encoding without `"`. -/
+theorem xmldecl_literal_roundtrip (v : Str) (e : Option Str) (s : Int) (h : xdFieldsOk v e = true) :
+    parseXmlDecl (xmlDeclContent v e s) = some (.xmlDecl v (normOpt e) (standaloneNorm s)) :=
+  parseXmlDecl_xmlDeclContent v e s h
+
+/-- html, over whole documents.  A document is an optional XML declaration, an optional DOCTYPE and a
+    body forest all of whose elements are in one namespace `u` (none: `u = []`; XHTML; any but the XML
+    namespace); the body's leaves may be plain text, comments, processing instructions and CDATA
+    markers (`htmlForestOkP`: as `htmlForestOk`, PI data without `>`).  With or without a doctype
+    option, cache on or off: what html.parser reads back (`readHtml`) is the DOCTYPE that wins (the
+    option if given, else the document's own; never two; its three fields recovered), then the
+    body as `forestPiecesP` prescribes (void elements without end tag, boolean attributes minimised,
+    text merged and verbatim, PIs with html.parser's trailing `?`, no XML declaration, CDATA markers
+    gone).
+    Full statement (not proved): also `strip_whitespace=True` (see `*_strip_partial`), Markup text
+    leaves, forests with several namespaces. -/
+theorem html_roundtrip_doc_partial (cache dropd : Bool) (u : Str) (hu : u ≠ xmlNs) (dopt : Option DocTypeT)
+    (decl : Option DeclT) (dt : Option DocTypeT) (body : List Node)
+    (hok : okList body = true) (hns : forestUniformNs u body = true) (hh : htmlForestOkP body = true)
+    (hwin : dtOkOf (winDt dopt dt) = true) :
+    (render .html { strip := false, cache := cache, doctype := dopt, dropXmlDecl := dropd }
+        (flattenList (docNodes decl dt body))).bind readHtml =
+      some (htmlDocView (winDt dopt dt) (forestPiecesP body)) := by
+  have hc : render .html { strip := false, cache := cache, doctype := dopt, dropXmlDecl := dropd }
+        (flattenList (docNodes decl dt body)) =
+      render .html { strip := false, cache := false, doctype := dopt, dropXmlDecl := dropd }
+        (flattenList (docNodes decl dt body)) := by
+    cases cache
+    · rfl
+    · exact Genshi.Props.C08.render_cache_irrelevant' .html false dopt dropd _
+  rw [hc]
+  have hf := filtered_forestU_dt .html dropd u hu dopt (docNodes decl dt body) (okList_doc decl dt body hok)
+    (uniformNs_doc u decl dt body hns)
+  rw [forestFu_doc, withDoctype_doc _ _ _ _ (notXdHead_bodyH u false body hh)] at hf
+  simp only [render, chunks, hf, Option.map_some, Option.bind_some, readHtml]
+  have hl : ∀ evs, loop .html ⟨dropd⟩ false {} evs = serSpec .html ⟨dropd⟩ {} evs :=
+    fun evs => loop_nocache_eq_spec .html ⟨dropd⟩ evs {}
+  rw [hl, html_doc_tokens ⟨dropd⟩ decl dopt dt _ _ (bodyH_forestU u false body hh) hwin]
+  simp only [Option.map_some]
+  rw [htmlView_doc _ _ hwin]
+
+/-- xhtml, over whole documents, tokenizer level (before namespace resolution): the XML declaration
+    (only with `drop_xml_decl=False`) and the winning DOCTYPE are read back as their literals, each
+    followed by its line feed, then the body as `forestPiecesXP` prescribes: `xmlns="u"` on the
+    outermost elements, childless void elements self-closed, boolean attributes expanded, CDATA
+    sections as ordinary character data, PIs verbatim.  Body hypotheses `xKidsOkP` (as
+    `xhtmlForestOk`; inside a CDATA section only plain text that cannot close it; PI data without
+    `?>`). -/
+theorem xhtml_roundtrip_doc_tokens_partial (cache dropd : Bool) (u : Str) (hu : u ≠ xmlNs) (huv : attrValOkB u = true)
+    (dopt : Option DocTypeT) (decl : Option DeclT) (dt : Option DocTypeT) (body : List Node)
+    (hok : okList body = true) (hns : forestUniformNs u body = true) (hh : xKidsOkP false body = true)
+    (hdecl : xdOkOf ⟨dropd⟩ decl = true) (hwin : dtOkOf (winDt dopt dt) = true) :
+    (render .xhtml { strip := false, cache := cache, doctype := dopt, dropXmlDecl := dropd }
+        (flattenList (docNodes decl dt body))).bind (tokens true) =
+      some (assemble (xdPiecesOf ⟨dropd⟩ decl ++ (dtPiecesOf (winDt dopt dt) ++ forestPiecesXP u false body))) := by
+  have hc : render .xhtml { strip := false, cache := cache, doctype := dopt, dropXmlDecl := dropd }
+        (flattenList (docNodes decl dt body)) =
+      render .xhtml { strip := false, cache := false, doctype := dopt, dropXmlDecl := dropd }
+        (flattenList (docNodes decl dt body)) := by
+    cases cache
+    · rfl
+    · exact Genshi.Props.C08.render_cache_irrelevant' .xhtml false dopt dropd _
+  rw [hc]
+  have hf := filtered_forestU_dt .xhtml dropd u hu dopt (docNodes decl dt body) (okList_doc decl dt body hok)
+    (uniformNs_doc u decl dt body hns)
+  rw [forestFu_doc, withDoctype_doc _ _ _ _ (notXdHead_bodyX u false body hh)] at hf
+  simp only [render, chunks, hf, Option.map_some, Option.bind_some]
+  have hl : ∀ evs, loop .xhtml ⟨dropd⟩ false {} evs = serSpec .xhtml ⟨dropd⟩ {} evs :=
+    fun evs => loop_nocache_eq_spec .xhtml ⟨dropd⟩ evs {}
+  rw [hl]
+  exact xhtml_doc_tokens ⟨dropd⟩ decl dopt dt _ _ (bodyX_kids ⟨dropd⟩ u huv body false false hh) hdecl hwin
+
+/-- xhtml, over whole documents, through namespace resolution (expat's view, `xmlView`): the XML
+    declaration comes back with its fields (only with `drop_xml_decl=False`), then the winning
+    DOCTYPE with its fields, then the body: every element in namespace `u`, `xml:` attributes in the
+    XML namespace, the `xmlns` declaration consumed, self-closed elements as start + end, PIs split
+    into target and data (`xmlMapTok`; `xmlMapTok_pi`: recovered when the target holds no white
+    space and the data starts with none), the line feeds of the prolog dropped.  Additional
+    hypotheses `xmlForestOkP` (no character data outside elements, names without colon, no attribute
+    called `xmlns`, no PI that looks like an XML declaration) and `xdViewOk` (no `"` in the
+    declaration's fields). -/
+theorem xhtml_roundtrip_doc_partial (cache dropd : Bool) (u : Str) (hu : u ≠ xmlNs) (huv : attrValOkB u = true)
+    (dopt : Option DocTypeT) (decl : Option DeclT) (dt : Option DocTypeT) (body : List Node)
+    (hok : okList body = true) (hns : forestUniformNs u body = true) (hh : xKidsOkP false body = true)
+    (hx : xmlForestOkP true body = true)
+    (hdecl : xdViewOk ⟨dropd⟩ decl = true) (hwin : dtOkOf (winDt dopt dt) = true) :
+    (render .xhtml { strip := false, cache := cache, doctype := dopt, dropXmlDecl := dropd }
+        (flattenList (docNodes decl dt body))).bind (fun out => (tokens true out).bind (xmlView [])) =
+      some (xdXOf ⟨dropd⟩ decl ++ (dtXOf (winDt dopt dt) ++
+        (assemble (forestPiecesXP u false body)).flatMap (xmlMapTok u))) := by
+  have h1 := xhtml_roundtrip_doc_tokens_partial cache dropd u hu huv dopt decl dt body hok hns hh
+    (xdOkOf_of_view _ _ hdecl) hwin
+  cases hr : render .xhtml { strip := false, cache := cache, doctype := dopt, dropXmlDecl := dropd }
+      (flattenList (docNodes decl dt body)) with
+  | none => simp [hr] at h1
+  | some out =>
+    simp only [hr, Option.bind_some] at h1 ⊢
+    rw [h1, Option.bind_some, assemble_doc _ _ _ _ (startsTok_forestP u body hx),
+      xmlView_prolog _ _ _ _ hdecl hwin, xmlView_forestP u body hx]
+    rfl
+
+def exDocBody : List Node :=
+  [.leaf (.pi ['p', 'h', 'p'] ['e', 'c', 'h', 'o']),
+   .elem ⟨xhtmlNs, ['p']⟩ [(⟨[], ['c', 'h', 'e', 'c', 'k', 'e', 'd']⟩, ['y'])]
+     [.elem ⟨xhtmlNs, ['b', 'r']⟩ [] [], .leaf (.text ['a', '<'] false), .leaf .startCdata,
+      .leaf (.text ['&', ']'] false), .leaf .endCdata, .leaf (.comment ['c'])]]
+
+def exDecl : Option DeclT := some (['1', '.', '0'], some ['u', 't', 'f', '-', '8'], -1)
+def exDt : Option DocTypeT := some (['h', 't', 'm', 'l'], none, some ['a', '"', 'b'])
+def exDopt : Option DocTypeT := some (['h', 't', 'm', 'l'], some ['-', '/', '/', 'W', '3', 'C'], some ['x', '.', 'd', 't', 'd'])
+
+example : okList exDocBody = true ∧ forestUniformNs xhtmlNs exDocBody = true ∧ htmlForestOkP exDocBody = true ∧
+    xKidsOkP false exDocBody = true ∧ xmlForestOkP true exDocBody = true ∧ xdViewOk ⟨false⟩ exDecl = true ∧
+    dtOkOf (winDt exDopt exDt) = true ∧ dtOkOf (winDt none exDt) = true := by decide
+
+example : htmlDocView (winDt exDopt exDt) (forestPiecesP exDocBody) =
+    [.doctype ['h', 't', 'm', 'l'] (some ['-', '/', '/', 'W', '3', 'C']) (some ['x', '.', 'd', 't', 'd']),
+     .pi ['p', 'h', 'p', ' ', 'e', 'c', 'h', 'o', '?'],
+     .start ['p'] [(['c', 'h', 'e', 'c', 'k', 'e', 'd'], none)], .start ['b', 'r'] [],
+     .text ['a', '<', '&', ']'], .comment ['c'], .end_ ['p']] := by decide
+
+example : xdXOf ⟨false⟩ exDecl ++ (dtXOf (winDt none exDt) ++
+      (assemble (forestPiecesXP xhtmlNs false exDocBody)).flatMap (xmlMapTok xhtmlNs)) =
+    [.xmlDecl ['1', '.', '0'] (some ['u', 't', 'f', '-', '8']) (-1),
+     .doctype ['h', 't', 'm', 'l'] none (some ['a', '"', 'b']),
+     .pi ['p', 'h', 'p'] ['e', 'c', 'h', 'o'],
+     .start ⟨xhtmlNs, ['p']⟩ [(⟨[], ['c', 'h', 'e', 'c', 'k', 'e', 'd']⟩, ['c', 'h', 'e', 'c', 'k', 'e', 'd'])],
+     .start ⟨xhtmlNs, ['b', 'r']⟩ [], .end_ ⟨xhtmlNs, ['b', 'r']⟩,
+     .text ['a', '<', '&', ']'], .comment ['c'], .end_ ⟨xhtmlNs, ['p']⟩] := by decide
+
 
 def exProlog : List FEv :=
   [.xmlDecl ['1', '.', '0'] none (-1), .doctype ['h', 't', 'm', 'l'] none (some ['a', '"', 'b']),
